@@ -126,7 +126,10 @@ class _InlineFunction(XPathFunction):
                 v = v.evaluate(context)
 
             if isinstance(v, XPathFunction) and sequence_type.startswith('function('):
-                if not v.match_function_test(sequence_type, as_argument=True):
+                function_test = sequence_type
+                if function_test[:-1] == 'function(*)':
+                    function_test = function_test[:-1]  # function(*)?, function(*)*, function(*)+
+                if not v.match_function_test(function_test, as_argument=True):
                     msg = "argument {!r}: {} does not match sequence type {}"
                     raise self.error('XPTY0004', msg.format(varname, v, sequence_type))
 
